@@ -2,10 +2,11 @@
 (***************************************************************************)
 (* Validation of histories recorded from the real lena Cache pipelines     *)
 (* (lenaverif/cachelib.py).  Trace is a sequence of histories              *)
-(*   [lens, nc, shape, ev]   ev = sequence of events (lens: flow length of  *)
-(*   each data version)                                                    *)
+(*   [vk, nc, shape, ev]   ev = sequence of events (vk: the value codes of  *)
+(*   the flow of each data version)                                        *)
 (*   [cmd, a, res, v, c, rc, pulled, wpre, wmid]                           *)
-(* cmd: new / drop / data / start / restart / next / stop; res: what the consumer    *)
+(* cmd: new / drop / data / start / restart / next / stop / release (c = 1 in a next *)
+(* that raised: the exception object is kept); res: what the consumer    *)
 (* saw (ok, val, stop, inj = injected exception of element a, exc = any    *)
 (* other exception); v: the value (decoded to 100 * version + index, -1    *)
 (* when it is not a flow value passed through all downstream elements);    *)
@@ -18,10 +19,10 @@
 EXTENDS Cache, IOUtils
 Trace == JsonDeserialize(IOEnv.TRACE_FILE)
 VARIABLES hi, j
-tvars == <<rr, lens, nc, shape, ver, file, stored, intr, ph, rc, L, eager, cont, pos, out, pulled, wpre, wmid, h, hi, j>>
+tvars == <<rr, hd, lens, vk, nc, shape, held, hg, ver, file, stored, intr, ph, rc, L, eager, cont, pos, out, pulled, wpre, wmid, h, hi, j>>
 Ev == Trace[hi].ev
 TInit == /\ hi \in 1..Len(Trace) /\ j = 1
-         /\ InitWith(TRUE, Trace[hi].lens, Trace[hi].nc, Trace[hi].shape)
+         /\ InitWith(TRUE, TRUE, Trace[hi].vk, Trace[hi].nc, Trace[hi].shape)
 \* a run fed by cache l touches nothing before l (inside a Split, eg, the source is read by Split.run itself)
 UntouchedE(l, eg, e) == l > 0 => (eg \/ e.pulled = 0) /\ e.wpre = 0 /\ (l = 2 => e.wmid = 0)
 Untouched(l, e) == UntouchedE(l, eager, e)
@@ -33,9 +34,11 @@ Match(e) ==
   \/ e.cmd = "restart" /\ e.res = "ok" /\ Restart /\ UntouchedE(L', eager', e)
   \/ e.cmd = "next" /\ e.res = "val" /\ Deliver /\ e.v = Cur[pos + 1] /\ Untouched(L, e)
   \/ e.cmd = "next" /\ e.res = "stop" /\ Exhaust /\ Untouched(L, e)
-  \/ e.cmd = "next" /\ e.res = "inj" /\ e.a \in Sites /\ RaiseAt(e.a) /\ Untouched(L, e)
+  \/ e.cmd = "next" /\ e.res = "inj" /\ e.a \in Sites /\ RaiseAt(e.a, e.c = 1) /\ Untouched(L, e)
   \/ e.cmd = "next" /\ e.res = "exc" /\ BrokenRaise /\ Untouched(L, e)
   \/ e.cmd = "stop" /\ e.res = "ok" /\ Stop(e.a) /\ Untouched(L, e)
+  \* (what was kept may have been a run that only loaded: nothing suspended, nothing happens)
+  \/ e.cmd = "release" /\ e.res = "ok" /\ (IF held # {} THEN Release ELSE UNCHANGED vars)
 TNext == /\ j <= Len(Ev) /\ Match(Ev[j]) /\ j' = j + 1 /\ hi' = hi
 TSpec == TInit /\ [][TNext]_tvars
 \* side effect: events 1..j-1 of history hi are accepted (the harness takes the maximum per history)
